@@ -647,4 +647,65 @@ theorem torus_deg : ∀ ds : List Nat, ds ≠ [] → (∀ d ∈ ds, 3 ≤ d) →
       simp only [List.length_append, List.length_singleton]
       omega
 
+/-! ### coordinates by index -/
+
+/-- coordinate `i` of position `r`: `(r / (d_1 ⋯ d_i)) % d_{i+1}` -/
+theorem coords_getD (ds : List Nat) (r i : Nat) (hi : i < ds.length) :
+    (coords ds r).getD i 0 = r / prodL (ds.take i) % ds.getD i 0 := by
+  induction ds generalizing r i with
+  | nil => simp at hi
+  | cons d ds ih =>
+    cases i with
+    | zero => simp [coords, prodL]
+    | succ j =>
+      have hj : j < ds.length := by simpa using hi
+      simp only [coords, List.getD_cons_succ, List.take_succ_cons, prodL, ih (r / d) j hj, Nat.div_div_eq_div_mul]
+
+/-- `GridAdj` spelled out: exactly one coordinate differs, and there by a step on the line of that dimension -/
+theorem gridAdj_iff_index (p : Bool) : ∀ (ds x y : List Nat), x.length = ds.length → y.length = ds.length →
+    (GridAdj p ds x y ↔ ∃ i, i < ds.length ∧ LineAdj p (ds.getD i 0) (x.getD i 0) (y.getD i 0) ∧
+      ∀ j, j < ds.length → j ≠ i → x.getD j 0 = y.getD j 0) := by
+  intro ds
+  induction ds with
+  | nil => intro x y _ _; simp [GridAdj]
+  | cons d ds ih =>
+    intro x y hx hy
+    match x, y, hx, hy with
+    | a :: x, b :: y, hx, hy =>
+      simp only [List.length_cons, Nat.add_right_cancel_iff] at hx hy
+      simp only [GridAdj]
+      constructor
+      · rintro (⟨h1, rfl⟩ | ⟨rfl, h2⟩)
+        · refine ⟨0, by simp, by simpa using h1, ?_⟩
+          intro j _ hj
+          cases j with
+          | zero => exact absurd rfl hj
+          | succ k => simp
+        · obtain ⟨i, hi, h3, h4⟩ := (ih x y hx hy).1 h2
+          refine ⟨i + 1, by simpa using hi, by simpa using h3, ?_⟩
+          intro j hj hne
+          cases j with
+          | zero => simp
+          | succ k =>
+            simp only [List.getD_cons_succ]
+            exact h4 k (by simpa using hj) (by omega)
+      · rintro ⟨i, hi, h3, h4⟩
+        cases i with
+        | zero =>
+          left
+          refine ⟨by simpa using h3, ?_⟩
+          apply List.ext_getElem (hx.trans hy.symm)
+          intro k hk1 hk2
+          have := h4 (k + 1) (by simp; omega) (by omega)
+          simp only [List.getD_cons_succ] at this
+          simpa [List.getD_eq_getElem?_getD, hk1, hk2] using this
+        | succ k =>
+          right
+          have hab := h4 0 (by simp) (by omega)
+          simp only [List.getD_cons_zero] at hab
+          refine ⟨hab, (ih x y hx hy).2 ⟨k, by simpa using hi, by simpa using h3, ?_⟩⟩
+          intro j hj hne
+          have := h4 (j + 1) (by simpa using hj) (by omega)
+          simpa using this
+
 end Cnfgen.Nx
